@@ -34,3 +34,7 @@ open Bpmn.Props.C12 Bpmn.Props.EngineCurrent
 #print axioms Bpmn.Props.C12Blind.arrive_reparent
 #print axioms Bpmn.Props.C12Blind.selectFlows_reparent
 #print axioms Bpmn.Props.C12Blind.answerPrep_reparent
+#print axioms Bpmn.Props.C12Loop.loop_step
+#print axioms Bpmn.Props.C12Loop.loop_rounds
+#print axioms Bpmn.Props.C12Loop.loop_run
+#print axioms Bpmn.Props.C12Steps.loop_run_current
